@@ -30,6 +30,14 @@ CLAIMED = {
                 note='Trusted: z3, AST rewrite, the reference number grammar and reference binder; dimensions compared with the exact rational within (1+unit/pt) sp, floats as reals. '
                      'Signatures beyond 3 arguments, mu units, url/label/ref/cs types are outside the claim.',
                 ref='DESIGN.md section 5 C05'),
+    'C06': dict(level='model_checking',
+                text='Bounded exhaustive: from each of 6 pre-state trees one operation (quick) / all histories of 2 and selected histories of 3 operations (thorough) over the '
+                     '10 documented editing operations, every target element, every argument kind (detached element, text node, fragment) and every index in [-(n+2), n+2] '
+                     '(z3 integers), text contents symbolic: after every step the parent/owner links, child order, sibling navigation, first/last child, textContent, '
+                     'getElementsByTagName, allChildNodes, document position and deep clone agree with a list-of-lists model; normalize keeps the text and is idempotent.',
+                note='The heap is pointer-rich, so operation/target/argument are finite choices enumerated exhaustively; the solver decides index arithmetic and text equality '
+                     '(stated in the evidence). Arguments are detached nodes (property scope); failed edits end the history. Attribute-held fragments are outside the claim.',
+                ref='DESIGN.md section 5 C06'),
     'C15': dict(level='model_checking',
                 text='Bounded exhaustive over request histories of the real generator through its call interface: 7 templates of the documented grammar x histories of 2-4 '
                      '(thorough 4-6) requests x every presence pattern of the bindings (symbolic booleans) x ALL binding values of bounded length over {a,b,blank,/} (symbolic: '
